@@ -131,23 +131,75 @@ func CLIPrintIdentity(p *core.Program, r *core.Report, rule string) {
 		var prints []ssa.CallInstruction
 		var fileWrites []ssa.CallInstruction
 		calls := map[string][]*ssa.Call{}
+		// the output step (print, then -f) is in the command itself or in one helper of package cli the command hands the
+		// rendered string to; stdout writes are counted over the command and its direct cli callees together
+		var emitFn *ssa.Function
+		var emitCall *ssa.Call
+		scanOut := func(f *ssa.Function) (pr, fw []ssa.CallInstruction) {
+			for _, b := range f.Blocks {
+				for _, in := range b.Instrs {
+					ci, ok := in.(ssa.CallInstruction)
+					if !ok {
+						continue
+					}
+					if is, _ := isStdoutWrite(ci.Common()); is {
+						pr = append(pr, ci)
+					}
+					if callee := ci.Common().StaticCallee(); callee != nil && callee.Pkg != nil && callee.Pkg.Pkg.Path() == core.PkgCLI && opensFile(p, callee) {
+						fw = append(fw, ci)
+					}
+				}
+			}
+			return
+		}
 		for _, b := range sf.Blocks {
 			for _, in := range b.Instrs {
 				ci, ok := in.(ssa.CallInstruction)
 				if !ok {
 					continue
 				}
-				if is, _ := isStdoutWrite(ci.Common()); is {
-					prints = append(prints, ci)
-				}
 				_, name := ssaCalleeName(ci.Common())
 				if c, ok := in.(*ssa.Call); ok {
 					calls[name] = append(calls[name], c)
 				}
-				if callee := ci.Common().StaticCallee(); callee != nil && callee.Pkg != nil && callee.Pkg.Pkg.Path() == core.PkgCLI && opensFile(p, callee) {
-					fileWrites = append(fileWrites, ci)
+			}
+		}
+		prints, fileWrites = scanOut(sf)
+		for _, b := range sf.Blocks {
+			for _, in := range b.Instrs {
+				c, ok := in.(*ssa.Call)
+				if !ok {
+					continue
+				}
+				callee := c.Common().StaticCallee()
+				if callee == nil || callee.Pkg == nil || callee.Pkg.Pkg.Path() != core.PkgCLI || callee.Blocks == nil {
+					continue
+				}
+				hp, hf := scanOut(callee)
+				if len(hp) == 0 {
+					continue
+				}
+				if len(prints) == 0 && emitFn == nil {
+					emitFn, emitCall = callee, c
+					prints, fileWrites = hp, hf
+				} else {
+					prints = append(prints, hp...) // a second print site: counted, and rejected below
 				}
 			}
+		}
+		// a value of the helper seen from the command: the argument its parameter receives
+		outer := func(v ssa.Value) ssa.Value {
+			if emitFn == nil || v == nil {
+				return v
+			}
+			if prm, ok := v.(*ssa.Parameter); ok {
+				for k, fp := range emitFn.Params {
+					if fp == prm && k < len(emitCall.Call.Args) {
+						return stripIface(emitCall.Call.Args[k])
+					}
+				}
+			}
+			return v
 		}
 		// 1. exactly one stdout write, of exactly one string, verbatim
 		c1 := key + ": writes exactly one value to stdout, verbatim"
@@ -180,12 +232,22 @@ func CLIPrintIdentity(p *core.Program, r *core.Report, rule string) {
 		c2 := key + ": the printed value is the string returned by " + sp.toString
 		var toStr *ssa.Call
 		if printed != nil {
-			if ex, ok := printed.(*ssa.Extract); ok && ex.Index == 0 {
+			if ex, ok := outer(printed).(*ssa.Extract); ok && ex.Index == 0 {
 				if c, ok := ex.Tuple.(*ssa.Call); ok {
 					if _, n := ssaCalleeName(c.Common()); n == sp.toString {
 						toStr = c
 					}
 				}
+			}
+			if emitFn != nil {
+				// the helper's result (the -f error) is what the command returns
+				retd := false
+				for _, ref := range *emitCall.Referrers() {
+					if _, ok := ref.(*ssa.Return); ok {
+						retd = true
+					}
+				}
+				r.Check(retd, rule, key+": returns the result of the output step", p.Pos(emitCall.Pos()), "", "the error of the output helper is not returned by the command")
 			}
 			r.Check(toStr != nil, rule, c2, p.Pos(prints[0].Pos()), "", "the value printed on stdout is not (exactly) result #0 of "+sp.toString+": it was transformed, or comes from somewhere else")
 		}
@@ -483,6 +545,15 @@ func StdoutPurity(p *core.Program, r *core.Report, rule string) {
 					for _, sp := range cliSpecs {
 						if fd.Obj.Name() == sp.run && fd.Pkg.PkgPath == core.PkgCLI {
 							isRun = true
+						}
+						// a helper of package cli that a command calls directly: part of the command's own output step,
+						// whose stdout writes C18-print counts together with the command's
+						if run := p.Func(core.PkgCLI, "", sp.run); run != nil && fd.Pkg.PkgPath == core.PkgCLI {
+							for _, callee := range p.CalleesOf(run) {
+								if callee == fd.Obj {
+									isRun = true
+								}
+							}
 						}
 					}
 					switch {
